@@ -28,3 +28,12 @@ def stepCap (toks : List String) : Option String :=
   | _ => none
 
 end NV
+
+namespace NV
+/-- `racesoak`: the concurrent soak of C15 has no per-line model; the race detector is the oracle,
+the expected canonical line is `ok`. -/
+def stepRaceSoak (toks : List String) : Option String :=
+  match toks with
+  | ["racesoak"] => some "ok"
+  | _ => none
+end NV
